@@ -14,7 +14,16 @@ import (
 	"golang.org/x/tools/go/packages"
 )
 
-const RepoDir = "/repo"
+// RepoDir is the tree under verification.  Registered checks always use /repo; DSVC_REPO lets the seed tooling point
+// dsvc at a scratch worktree so that stored seeds can be replayed while /repo is being edited.
+var RepoDir = repoDir()
+
+func repoDir() string {
+	if d := os.Getenv("DSVC_REPO"); d != "" {
+		return d
+	}
+	return "/repo"
+}
 const ContractsFileName = "verif_contracts.go"
 const GenFileName = "zz_dsvc_gen.go"
 
